@@ -153,7 +153,7 @@ func init() {
 		ID: "C08", Level: "exploration",
 		Rule: "all arithmetic expression trees with <= 2 (thorough: 3) binary operators over number literals, count/sum/number/string-length of flat paths, number('v') for the XPath number lexeme and its near misses, unary minus chains, floor/ceiling, and string() of numbers, evaluated on every document of a value universe from every context node and compared bit-for-bit (up to NaN payload) with the reference; mod outside non-negative integers, sum() over non-numeric nodes and string() of non-finite/large numbers are outside the property and skipped (counted); distinct = distinct expressions",
 		Assumptions:    []string{"hand-written reference evaluator (XPath number lexer/printer)", "lawful NodeNavigator", "bounded expression depth and value alphabet"},
-		Budget:         budget(55*time.Second, 12*time.Minute),
+		Budget:         budget(90*time.Second, 12*time.Minute),
 		MinRefOutcomes: 2,
 		Spaces:         c08Spaces,
 	})
